@@ -107,8 +107,11 @@ def has_group_without_rep_only(forest):
 
 def element_text(tag, forms):
     "forms: dict site -> numbering form"
+    text = forms['text']
+    if forms.get('nested_text'):
+        text = 'p{q%sr}s' % text            # the numbering run inside balanced inner braces of the text
     return '%s%s.c%s[t=%s u="%s"]#i%s{%s%s}' % (tag, forms['name'], forms['class'], forms['attr'], forms['qattr'],
-                                                forms['id'], '$#' if forms.get('placeholder') else '', forms['text'])
+                                                forms['id'], '$#' if forms.get('placeholder') else '', text)
 
 
 def render(forest, forms, counter=None):
@@ -230,6 +233,8 @@ def compare(exp, obs, forms):
         got['class'] = c[1:] if c is not None and c.startswith('c') else None
         i = b[2].get('id')
         got['id'] = i[1:] if i is not None and i.startswith('i') else None
+        if forms.get('nested_text') and want['text'] is not None:
+            want['text'] = 'p{q%sr}s' % want['text']
         for site in SITES:
             if want[site] is not None and got[site] != want[site]:
                 return 'number:%s' % site, dict(tag=tag, copy=rp, form=forms[site], expected=want[site], actual=got[site])
@@ -253,6 +258,12 @@ def variants(limits):
     ph = dict(base)
     ph['placeholder'] = True          # `$#` in every text: must not disturb which repeater later `$` runs see
     yield ph, None
+    nb = dict(base)
+    nb['nested_text'] = True          # `$` inside nested braces of a text, the element's repeater right after the text
+    yield nb, None
+    nb = dict(nb)
+    nb['text'] = '$$@-3'
+    yield nb, None
     for site in SITES:
         for f in FORMS:
             if f == '$':
